@@ -60,6 +60,7 @@ type Contract struct {
 	Target     string
 	Fn         *ssa.Function
 	UseAtCalls bool
+	Pkg        string // declaring package: use-contracts apply to harnesses of that package
 	Props      []string
 }
 
@@ -231,7 +232,7 @@ func (w *World) readDirectives(pkg *ssa.Package, f *ast.File) error {
 					if len(g.TypeArgs()) > 0 {
 						target = instantiateName(target, g)
 					}
-					ct := &Contract{Target: target, Fn: g, Props: props}
+					ct := &Contract{Target: target, Fn: g, Props: props, Pkg: pkg.Pkg.Path()}
 					for _, p := range pos {
 						if p == "use" {
 							ct.UseAtCalls = true
